@@ -35,6 +35,40 @@ def invariant(v, cls, d):
     return ok
 
 
+def _props(d, mom):
+    from .. import engined as E
+    ps = list(E.PLANAR_PROPS) + (list(E.SPATIAL_PROPS) if d >= 3 else []) + (list(E.LORENTZ_PROPS) if d == 4 else [])
+    if mom:
+        for k in range(2, d + 1):
+            ps += list(E.MOM_PROPS[k])
+        ps += [p for p in ("transverse_energy", "transverse_energy2", "transverse_mass", "transverse_mass2", "et", "et2", "mt", "mt2", "Et", "Et2", "Mt", "Mt2") if d == 4]
+    return list(dict.fromkeys(ps))
+
+
+def _read_all(v, d, mom):
+    for p in _props(d, mom):
+        try:
+            with numpy.errstate(all="ignore"):
+                getattr(v, p)
+        except Exception:
+            pass
+
+
+def _stale(v, d, mom):
+    """properties of v that differ from those of a vector freshly built from v's current coordinate objects"""
+    twin = type(v)(**{g: getattr(v, g) for g in GROUPS_OF_DIM[d]})
+    out = []
+    for p in _props(d, mom):
+        try:
+            with numpy.errstate(all="ignore"):
+                a, b = getattr(v, p), getattr(twin, p)
+        except Exception:
+            continue
+        if not O.same(a, b):
+            out.append((p, repr(a)[:60], repr(b)[:60]))
+    return out
+
+
 def shard(args):
     s1, mom1 = args
     O.install()
@@ -52,11 +86,14 @@ def shard(args):
             partner = PARTNER.get(name)
             pre_partner = getattr(v, partner) if partner else None
             slots = {g: getattr(v, g) for g in GROUPS_OF_DIM[d]}
+            _read_all(v, d, mom1)          # every derived quantity has been read once before the update (anything remembered on the instance is now stale)
             try:
                 setattr(v, spelled, T("new"))
             except Exception as e:
                 ob.check(f"setter/{spelled}/defined{sid}", False, f"{type(e).__name__}: {e}")
                 continue
+            stale = _stale(v, d, mom1)
+            ob.check(f"setter/{spelled}/every-property-is-that-of-the-new-state{sid}", not stale, dict(stale=stale[:4]))
             ob.check(f"setter/{spelled}/invariant-class-identity{sid}", invariant(v, cls, d) and id(v) == ident)
             ob.check(f"setter/{spelled}/reads-back{sid}", O.same(getattr(v, name), T("new")) and O.same(getattr(v, spelled), T("new")), repr(getattr(v, name))[:100])
             if partner:
@@ -87,6 +124,7 @@ def shard(args):
                         except Exception as e:
                             ob.check(f"inplace/{opname}/raises-TypeError{pid}", False, f"{type(e).__name__}: {e}")
                         continue
+                    _read_all(v, d, mom1)
                     try:
                         fun = functional(O.make(s1, mom1, "1"), w)
                         r = inplace(v, w)
@@ -95,6 +133,8 @@ def shard(args):
                         continue
                     ob.check(f"inplace/{opname}/identity-class-system{pid}", r is v and id(v) == ident and type(v) is cls and O.sysof(v) == sysb and invariant(v, cls, d),
                              dict(cls=type(v).__name__, sys=O.sysof(v)))
+                    stale = _stale(v, d, mom1)
+                    ob.check(f"inplace/{opname}/every-property-is-that-of-the-new-state{pid}", not stale, dict(stale=stale[:4]))
                     # the post-state is the functional result expressed in the target's own coordinate system
                     exp = [getattr(fun, n) for n in O.names_of(s1)]
                     ob.check(f"inplace/{opname}/equals-functional{pid}", O.same(O.coords(v), exp), dict(got=[repr(c)[:90] for c in O.coords(v)], expected=[repr(c)[:90] for c in exp]))
